@@ -19,6 +19,10 @@ func runC03(w *World) {
 	dir := Dir(w.Draw(2, "dir"))
 	hold := Pick(w, "hold", 90, 0)
 	variant := w.Draw(5, "variant") // 0,1 plain; 2 notification at k; 3 WriteUpdate inside handler; 4 stall inside handler
+	// the remote may close (FIN) right behind its last message: everything it sent
+	// before closing was sent while the session was Established and must still be
+	// delivered, in order, before the session ends
+	finBehind := variant != 2 && w.Chance(1, 4, "fin-behind")
 	nmsg := w.Range(1, 12, "nmsg")
 	if w.Chance(1, 6, "many") {
 		nmsg = w.Range(13, 60, "nmsgmany")
@@ -110,6 +114,10 @@ func runC03(w *World) {
 			w.Yield("c03.between")
 		}
 	}
+	if finBehind {
+		c.FIN()
+		w.Probe("fin-right-behind-last-message")
+	}
 	w.Quiesce()
 	if variant == 4 {
 		// stalls move the clock; wait for the handler to drain
@@ -147,12 +155,16 @@ func runC03(w *World) {
 		}
 	}
 	sessionUp := p.Plug.IsUp() && !c.LocalClosed()
+	if finBehind && len(got) != len(want) {
+		w.Violate("C03/delivery/lost-before-close", "the remote sent %d UPDATEs and then closed the connection; only %d were delivered before the session ended", len(want), len(got))
+		return
+	}
 	if variant != 2 || notifAt >= len(sent) {
 		if sessionUp && len(got) != len(want) {
 			w.Violate("C03/delivery/lost", "session still up and quiescent but only %d of %d UPDATEs were delivered", len(got), len(want))
 			return
 		}
-		if !sessionUp {
+		if !sessionUp && !finBehind {
 			w.Probe("session-ended-early")
 		}
 	} else {
